@@ -10,6 +10,7 @@ oracle_c02 — line protocol (threads `0..N-1`, keys `0..K-1`; `sᵢ` = shard in
           `busy` (t is parked), `misuse` (lock of a key t holds / duplicate keys / unlock of a key t does not hold in that mode)
   `counts <k>` → `r=<readCount> w=<writeCount> p=<0|1>`     (T-observable)
   `entries`    → number of map entries                       (T-observable)
+  `burst|unburst <t> <w|r> <lo> <hi>` (single-shard lockers) → lock / unlock keys lo..hi-1 one after the other; status vector
   `stress <G> <iters>` → `ok` (G goroutines hammer a fresh locker of the same shape; monitors only)
   `drain`      → every thread outside a call releases what it holds (lowest thread, lowest key first), repeatedly; status vector
 When woken threads race for a further key the quiescent state is not unique: the oracle tracks the set of
@@ -176,7 +177,7 @@ def parseInit (ws : List String) : Option Env :=
       let single := kind == "kl" || kind == "tkl"
       let multi := kind == "tkl" || kind == "tkg"
       let known := single || kind == "klg" || kind == "tkg"
-      if known && (hash == "mod" || hash == "xh" || hash == "str") && n ≥ 1 && n ≤ 100 && nT ≥ 1 && nT ≤ 48 && nK ≥ 1 && nK ≤ 48 && shs.length == nK && shs.all (· < n) && (!single || n == 1)
+      if known && (hash == "mod" || hash == "xh" || hash == "str" || hash == "neg" || hash == "n64" || hash == "hit") && n ≥ 1 && n ≤ 100 && nT ≥ 1 && nT ≤ 48 && nK ≥ 1 && nK ≤ 48 && shs.length == nK && shs.all (· < n) && (!single || n == 1) && (hash != "hit" || !multi) && (hash != "n64" || multi) && ((hash != "neg" && hash != "n64") || nK ≤ 12)
       then some ⟨multi, n, shs, nT, nK⟩ else none
     | _, _, _, _ => none
   | _ => none
@@ -186,6 +187,38 @@ def callOp (os : OS) (e : Env) (t : Tid) (mk : Tid → Act) : OS × String :=
   let next := rs.flatMap fun (s, r) => match r with | .inl l => l | .inr _ => [s]
   let outs := rs.flatMap fun (_, r) => match r with | .inl l => l.map (statusVec e) | .inr m => [m]
   ({ os with states := dedupStates e next }, showSet outs)
+
+/-- thread `t` runs alone until it is idle or asleep (no other thread is inside a call: nothing to interleave with) -/
+def runAlone (e : Env) (t : Tid) : Nat → State → State
+  | 0, s => s
+  | fuel + 1, s =>
+    match macroStep e s t with
+    | none => s
+    | some s' => runAlone e t fuel s'
+
+/-- `burst`/`unburst`: the fold of single-key calls over the keys `lo..hi-1` by thread `t`, stopping when `t` parks;
+keys `t` already holds (burst) or does not hold in that mode (unburst) are skipped -/
+def burstState (e : Env) (t : Tid) (m : Mode) (un : Bool) : List Key → Nat → State → List State
+  | [], _, s => [s]
+  | k :: ks, i, s =>
+    if s.fault || (s.th t).phase ≠ .idle then [s] else
+    let skip := if un then !(decide (holdsIn (s.th t) m k)) else decide (k ∈ heldKeys (s.th t))
+    if skip then burstState e t m un ks i s else
+    match e.step s (if un then .uncall t m [k] else .call t m [k]) with
+    | none => burstState e t m un ks i s
+    | some s1 =>
+      if (List.range e.N).all (fun u => u == t || (s1.th u).phase = .idle) then
+        let s2 := runAlone e t 64 s1
+        -- keep the closure chains short
+        let s3 := if i % 32 == 31 then ofSnap (snap e s2) else s2
+        burstState e t m un ks (i + 1) s3
+      else (settle e s1).flatMap (burstState e t m un ks (i + 1))
+
+def burstOp (os : OS) (e : Env) (t : Tid) (m : Mode) (un : Bool) (lo hi : Nat) : OS × String :=
+  let e' : Env := { e with K := max e.K hi }
+  let keys := (List.range (hi - lo)).map (· + lo)
+  let next := dedupStates e' (os.states.flatMap (burstState e' t m un keys 0))
+  (⟨some e', next⟩, showSet (next.map (statusVec e')))
 
 def step (os : OS) (line : String) : OS × String :=
   match words line with
@@ -228,6 +261,17 @@ def step (os : OS) (line : String) : OS × String :=
         | none => (os, "bad-op")
       | ["entries"] =>
         (os, showSet (os.states.map fun s => toString ((List.range e.K).filter (fun k => (s.table k).isSome)).length))
+      | [op, t, md, lo, hi] =>
+        if op != "burst" && op != "unburst" then (os, "bad-op") else
+        match strictNat? t, strictNat? lo, strictNat? hi with
+        | some t, some lo, some hi =>
+          let m? : Option Mode := if md == "w" then some .w else if md == "r" then some .r else none
+          match m? with
+          | some m =>
+            if t < e.N && e.n == 1 && lo < hi && hi ≤ 2048 && hi - lo ≤ 1600 then burstOp os e t m (op == "unburst") lo hi
+            else (os, "bad-op")
+          | none => (os, "bad-op")
+        | _, _, _ => (os, "bad-op")
       | ["stress", g, it] =>
         -- a parallel stress run on a fresh locker of the same shape: no model state, answer is `ok` when it ends cleanly
         match strictNat? g, strictNat? it with
